@@ -115,7 +115,7 @@ func (w *vcoWorld) refs(kind string) []crypto.Hash {
 func (w *vcoWorld) tx(cls string, refs []crypto.Hash) *common.VersionedTransaction {
 	w.seq++
 	tx := common.NewTransactionV5(common.XINAssetId)
-	h1, h2 := vcoHash("vco-key", w.dir, w.seq), vcoHash("vco-key2", w.dir, w.seq)
+	h1, h2 := vcoHash("vco-key", w.tag, w.seq), vcoHash("vco-key2", w.tag, w.seq)
 	k := crypto.NewKeyFromSeed(append(h1[:], h2[:]...)).Public()
 	add := func(typ uint8) {
 		tx.Outputs = append(tx.Outputs, &common.Output{Type: typ, Amount: common.NewInteger(1), Keys: []*crypto.Key{&k}, Mask: k, Script: common.NewThresholdScript(1)})
@@ -194,7 +194,7 @@ func (w *vcoWorld) write(tr *vTrace, o vcoOp) {
 		txs = append(txs, w.tx("script", nil).PayloadHash())
 	}
 	w.seq++
-	s := w.snapshot(vcoHash("vco-node", w.dir, w.seq), uint64(o.N-1), w.tsOf(o.Tsk), txs...)
+	s := w.snapshot(vcoHash("vco-node", w.tag, w.seq), uint64(o.N-1), w.tsOf(o.Tsk), txs...)
 	if o.Cls == "mint" && o.N == 1 && !o.Rep {
 		w.stash(s, ver)
 	} else if o.Rep && o.N == 1 {
@@ -208,12 +208,18 @@ func (w *vcoWorld) write(tr *vTrace, o vcoOp) {
 		w.topo++
 		must(w.store.WriteSnapshot(&common.SnapshotWithTopologicalOrder{Snapshot: s, TopologicalOrder: w.topo}, []crypto.Hash{s.NodeId}))
 	}
+	// the pipeline order of the node: the kernel rule first (validateConsensusTransactionReferences on the
+	// very snapshot), then the store; both outcomes are recorded, an abort of either is an outcome
+	kres := "na"
+	if o.N == 1 {
+		kres, _ = vCall(func() error { return w.node.validateConsensusTransactionReferences(s, ver) })
+	}
 	res, _ := vCall(func() error { return w.store.WriteConsensusSnapshot(s, ver, nil) })
 	last := w.observeLast()
 	if id, _ := last["tx"].(int); id == len(w.chain) && !o.Rep {
 		w.chain = append(w.chain, vcoRec{tx: ver, snap: s})
 	}
-	tr.Emit(vM{"ev": "write", "o": o, "res": res, "last": last})
+	tr.Emit(vM{"ev": "write", "o": o, "kres": kres, "res": res, "last": last})
 }
 
 // the reference decision table at the current history
@@ -244,7 +250,7 @@ func (w *vcoWorld) refTable(tr *vTrace) {
 // a pledge transaction and snapshot that pass validateNodePledgeSnapshot (amount, hour, elected node)
 func (w *vcoWorld) validPledge(refs []crypto.Hash, after uint64) (*common.VersionedTransaction, uint64, crypto.Hash) {
 	w.seq++
-	signer, payee := vmtAddr(fmt.Sprint("vco-pledge-s", w.dir), w.seq), vmtAddr(fmt.Sprint("vco-pledge-p", w.dir), w.seq)
+	signer, payee := vmtAddr(fmt.Sprint("vco-pledge-s", w.tag), w.seq), vmtAddr(fmt.Sprint("vco-pledge-p", w.tag), w.seq)
 	tx := common.NewTransactionV5(common.XINAssetId)
 	tx.AddInput(vcoHash("vco-pledge-in", w.seq), 0)
 	tx.AddOutputWithType(common.OutputTypeNodePledge, nil, common.Script{}, common.KernelNodePledgeAmount, make([]byte, 64))
@@ -264,23 +270,26 @@ func (w *vcoWorld) finalizedMint(owner *common.Address) *common.VersionedTransac
 	w.seq++
 	tx := common.NewTransactionV5(common.XINAssetId)
 	tx.AddUniversalMintInput(uint64(500000+w.seq), common.NewInteger(1))
-	seed := vcoHash("vst-mint-seed", w.dir, w.seq)
+	seed := vcoHash("vst-mint-seed", w.tag, w.seq)
 	tx.AddScriptOutput([]*common.Address{owner}, common.NewThresholdScript(1), common.NewInteger(1), append(seed[:], seed[:]...))
 	tx.References = w.refs("last")
 	ver := tx.AsVersioned()
 	w.seq++
-	s := w.snapshot(vcoHash("vst-node", w.dir, w.seq), 0, w.lastTs()+10+int64(w.seq), ver.PayloadHash())
+	s := w.snapshot(vcoHash("vst-node", w.tag, w.seq), 0, w.lastTs()+10+int64(w.seq), ver.PayloadHash())
 	w.stash(s, ver)
 	return ver
 }
 
+// the hash is far enough from both ends of the hash space for grinding transactions on either side
+func vcoModerate(h crypto.Hash) bool { return h[0] >= 0x40 && h[0] < 0xc0 }
+
 // a signed script transaction spending output 0 of src; hash below / above the pivot as requested
 func (w *vcoWorld) scriptSpending(src *common.VersionedTransaction, owner *common.Address, pivot crypto.Hash, below bool) *common.VersionedTransaction {
-	for i := 0; i < 200; i++ {
+	for i := 0; i < 4000; i++ {
 		w.seq++
 		tx := common.NewTransactionV5(common.XINAssetId)
 		tx.AddInput(src.PayloadHash(), 0)
-		seed := vcoHash("vst-script-seed", w.dir, w.seq)
+		seed := vcoHash("vst-script-seed", w.tag, w.seq)
 		tx.AddScriptOutput([]*common.Address{owner}, common.NewThresholdScript(1), common.NewInteger(1), append(seed[:], seed[:]...))
 		ver := tx.AsVersioned()
 		h := ver.PayloadHash()
@@ -313,17 +322,22 @@ func (w *vcoWorld) place(ver *common.VersionedTransaction, state string) {
 }
 
 func (w *vcoWorld) vstCases(tr *vTrace) {
-	owner := vmtAddr("vst-owner"+w.dir, 0)
+	owner := vmtAddr("vst-owner"+w.tag, 0)
 	for _, mintFirst := range []bool{false, true} {
 		for _, bstate := range []string{"cached", "persisted"} {
 			for _, finalized := range []bool{true, false} {
 				for _, size := range []int{2, 3} {
 					for _, mstate := range []string{"finalized", "missing"} {
 						mint := w.finalizedMint(&owner)
+						for !vcoModerate(mint.PayloadHash()) {
+							mint = w.finalizedMint(&owner)
+						}
 						pivot := mint.PayloadHash()
 						if mstate == "missing" {
 							// an unknown transaction hash of the same position
-							pivot = vcoHash("vst-missing", w.dir, w.seq)
+							for pivot = vcoHash("vst-missing", w.tag, w.seq); !vcoModerate(pivot); pivot = vcoHash("vst-missing", w.tag, w.seq) {
+								w.seq++
+							}
 						}
 						src := mint
 						members := map[crypto.Hash]string{pivot: "mint"}
